@@ -37,6 +37,9 @@ def sites():
                 if line.startswith("}"):
                     infunc = False
                 s = line.strip()
+                if infunc and re.match(r"^return (fmt\.Errorf|errors\.New)\(.*\)$", s):
+                    ind = line[: len(line) - len(line.lstrip())]
+                    out.append((rel, ln, 0, len(line), ind + "return nil", 98))
                 if not infunc or s.startswith("//") or s.startswith("func ") or "Errorf(" in s or "panic(" in s or '"' in s and "==" not in s and "!=" not in s:
                     continue
                 code = line.split("//")[0]
@@ -44,6 +47,19 @@ def sites():
                 if re.match(r"^\s+[A-Za-z_][\w\.\[\]\*]*\s*(=|\+=|-=)\s*[^=].*$", code) or re.match(r"^\s+[A-Za-z_][\w\.]*(\+\+|--)\s*$", code) or re.match(r"^\s+[A-Za-z_][\w\.]*\(.*\)\s*$", code):
                     if not code.strip().startswith(("return", "defer", "go ", "if ", "for ", "switch ")):
                         out.append((rel, ln, 0, len(line), "", 99))
+                # swallowed errors and swapped branches of results
+                m = re.match(r"^(\s+)return (err|e|fmt\.Errorf\(.*\)|errors\.New\(.*\))\s*$", code)
+                if m:
+                    out.append((rel, ln, 0, len(line), m.group(1) + "return nil", 98))
+                m = re.match(r"^(\s+)return (.*), (err|fmt\.Errorf\(.*\))\s*$", code)
+                if m:
+                    out.append((rel, ln, 0, len(line), m.group(1) + "return " + m.group(2) + ", nil", 97))
+                m = re.match(r"^(\s+)continue\s*$", code)
+                if m:
+                    out.append((rel, ln, 0, len(line), m.group(1) + "break", 96))
+                m = re.match(r"^(\s+)break\s*$", code)
+                if m:
+                    out.append((rel, ln, 0, len(line), m.group(1) + "continue", 95))
                 for oi, (pat, rep) in enumerate(OPS):
                     for m in re.finditer(pat, code):
                         out.append((rel, ln, m.start(), m.end(), rep, oi))
